@@ -16,7 +16,7 @@ def run(ctx):
     ctx.cov['rule'] = ('one case = one program run on the real interpreter; evaluations = statement boundaries validated by TLC; distinct = distinct program texts')
     interp_check.run_model_families(ctx, ['err'])
     st = interp_check.run_family(ctx, {'ctl', 'err', 'stray', 'data'}, ctx.pick(220, 5000), size=12,
-                                 focus={'err': 30, 'for': 10, 'gosub': 10, 'simple': 20, 'data': 4})
+                                 focus={'err': 30, 'for': 10, 'gosub': 10, 'simple': 20, 'data': 4}, direct=0.6)
     ends = st['ended']
     if sum(v for k, v in ends.items() if k.startswith('error')) < 5:
         raise core.MachineryError('vacuous: almost no program ended with an error')
